@@ -25,19 +25,19 @@ func formatUpdaterH265(outFormat format.Format, payload unit.Payload, updateOutD
 
 		switch typ {
 		case h265.NALUType_VPS_NUT:
-			if !bytes.Equal(nalu, formatH265.VPS) {
+			if !bytes.Equal(nalu, vps) {
 				vps = nalu
 				update = true
 			}
 
 		case h265.NALUType_SPS_NUT:
-			if !bytes.Equal(nalu, formatH265.SPS) {
+			if !bytes.Equal(nalu, sps) {
 				sps = nalu
 				update = true
 			}
 
 		case h265.NALUType_PPS_NUT:
-			if !bytes.Equal(nalu, formatH265.PPS) {
+			if !bytes.Equal(nalu, pps) {
 				pps = nalu
 				update = true
 			}
